@@ -32,6 +32,9 @@ namespace CDNS {
      * @brief Writes given data to output in CBOR format.
      */
     class CdnsEncoder {
+#ifdef CDNS_VERIF
+        friend struct ::cdns_verif::Access;
+#endif
         public:
 
         static constexpr std::size_t BUFFER_SIZE = 2048;
